@@ -313,11 +313,14 @@ def scripts(ck, n, label, **genkw):
                 continue
             vrule = c['spec'].get(d['measure'], (None, None))[1] if kind == 'value' else None
             no_unary = [v for v, (_, rule) in c['spec'].items() if rule.kind == 'enum' and rule.default is None and not any(len(vs) == 1 for vs, _ in rule.clauses)]
+            null_only = [v for v, (_, rule) in c['spec'].items() if rule.kind == 'enum' and rule.default is None and all(res is None for _, res in rule.clauses)]
             if kind == 'value' and vrule is not None and vrule.fn == 'avg' and c['spec'][d['measure']][0] == 'Integer' and \
                     isinstance(d['engine'], (int, float)) and abs(Fraction(d['model']) - Fraction(d['engine'])) < 1:
                 key = 'integer-viral-attribute:avg-rule:average-rounded-to-integer'
             elif kind == 'engine-error' and base[0] == 'raw' and 'ConversionException' in base[1] and 'Could not convert string' in str(base[-1]) and no_unary:
                 key = 'enum-rule:no-one-value-clause-no-default:untyped-NULL-column:ConversionException'
+            elif kind == 'engine-error' and base[0] == 'raw' and 'ConversionException' in base[1] and 'Could not convert string' in str(base[-1]) and null_only:
+                key = 'enum-rule:only-null-results-no-default:untyped-NULL-column:ConversionException'
             elif kind == 'value' and d['measure'] in c['viral']:
                 key = 'script:%s:%s:wrong-viral-value' % (c['ops'][-1], rule_kind(c))
             elif kind == 'engine-error' and base[0] == 'raw':
